@@ -36,10 +36,7 @@ def clause_a(ctx, P):
     for (hname, variant, didx) in HANDLERS:
         fn = P.one(hname)
         tr = tracer(P, fn)
-        dl = None
-        for l in range(1, fn.argc + 1):
-            if fn.locals[l].get("name") == "next_delay":
-                dl = l
+        dl = param_index(fn, "next_delay", "u32")
         ctx.require(dl is not None, "C19a.anchor", fn.name, fn.loc(), "parameter next_delay found")
         adds = calls_to(fn, "Zeroconf::add_retransmission")
         ctx.require(len(adds) == 1, "C19a.anchor-add", fn.name, fn.loc(), "one add_retransmission (found %d)" % len(adds))
@@ -120,10 +117,7 @@ def clause_c(ctx, P):
     fn = P.one("Zeroconf::exec_command_resolve")
     tr = tracer(P, fn)
     adds = calls_to(fn, "Zeroconf::add_retransmission")
-    tc = None
-    for l in range(1, fn.argc + 1):
-        if fn.locals[l].get("name") == "try_count":
-            tc = l
+    tc = param_index(fn, "try_count", "u16")
     ok = False
     if adds and tc:
         e_lt = guard_edges(P, fn, lambda atom, outcome, bb: atom[0] == "binop" and atom[1] == "Lt" and strip(atom[2]) == {("param", tc)} and fold(atom[3]) == 3 and outcome is True)
